@@ -176,6 +176,7 @@ def lattice_job(args):
     n = 0
     outcomes = set()
     sched_points = 0
+    capped_cfgs = []
     for cfg in args:
         interval, duration, offsets, pos_idx, shared = cfg[:5]
         kind = cfg[5] if len(cfg) > 5 else "eva"
@@ -189,8 +190,8 @@ def lattice_job(args):
         for rec, ch in st["violations"]:
             out.append((rec, dict(interval=interval, duration=duration, offsets=list(offsets), pos_idx=pos_idx, shared=shared, kind=kind, choices=ch)))
         if st["capped"]:
-            out.append((dict(kind="harness_cap_hit"), {}))
-    return n, out, len(outcomes), sched_points
+            capped_cfgs.append(list(cfg[:5]))
+    return n, out, len(outcomes), sched_points, capped_cfgs
 
 
 def race_job(args):
@@ -290,8 +291,8 @@ def run(ctx):
             for pos in range(len(POSITIONS) if thorough else 2):
                 cfgs.append((i, T, (0,), pos, True))
             for offs in ((0, i // 2), (0, i), (0, 0), (0, i // 2, i), (0, i, 2 * i)):
-                if T / i > 70 and len(offs) > 2:
-                    continue
+                if T / i > 70:
+                    continue        # long events are run alone (above): overlap orders are covered with the shorter durations
                 if not thorough and (len(offs) > 2 and T / i > 3 or offs == (0, 0) and T / i > 5):
                     continue
                 cfgs.append((i, T, offs, 0, True))
@@ -308,7 +309,9 @@ def run(ctx):
     outcomes = 0
     jobs = [cfgs[k::64] for k in range(64)]
     with mp.Pool(16) as pool:
-        for n, out, oc, sp in pool.imap_unordered(lattice_job, jobs):
+        capped = []
+        for n, out, oc, sp, cc in pool.imap_unordered(lattice_job, jobs):
+            capped += cc
             total += n
             outcomes += oc
             points = max(points, sp)
@@ -321,11 +324,11 @@ def run(ctx):
             ctx.parts[f"race_two_events"] = dict(schedules=n, points=sp, bound=max(rb))
             for rec, rp in out:
                 ctx.violation(rec, replay=rp)
-    ctx.parts["lattice"] = dict(configurations=len(cfgs), schedules=total, max_decision_points=points)
+    ctx.parts["lattice"] = dict(configurations=len(cfgs), schedules=total, max_decision_points=points, configurations_capped=capped)
     nrec = reception_part(ctx)
     ctx.parts["reception"] = dict(evaluations=nrec)
     ctx.coverage.update(
-        states=outcomes, transitions=total + nrec, traces_validated_against_impl=total + nrec, exhaustive=True,
+        states=outcomes, transitions=total + nrec, traces_validated_against_impl=total + nrec, exhaustive=not capped,
         samples=[dict(interval=100, duration=250, offsets=[0, 50], expect="3 DENMs per event at 0/100/200 ms after its trigger"),
                  dict(interval=1000, duration=1000, offsets=[0, 1000, 2000])],
         explanation=("every configuration of the interval x duration x overlap lattice is executed under the controlled scheduler on a "
